@@ -96,4 +96,11 @@ theorem backup_chain_cut_sound (m : POMDP) (hv : Valid m) (U : (Nat → Rat) →
     θ = 1e-6 is paid by `e = 36·1e-6` (test on literals) -/
 example : (1/2 : Rat) * 18 * (((2 : Nat) : Rat) * (1/1000000)) ≤ (1 - 1/2) * (36/1000000) := by norm_num
 
+/-- the two payment hypotheses of `anytimeT_sound` are satisfiable with the numbers of the upper cut-off witness (fixed instance 18 of the
+    harness: γ = 1/2, max R = 8 so `C = 16`, O = 2, S + N = 15 pseudo-states, θ = 1e-6): `e = truncSlack` = 96/100000 pays for the table
+    cut (`Dmax = O·(S+N)·θ`) and for the observation skip (test on literals) -/
+example : (16 : Rat) * (2 * 15 * (1/1000000)) ≤ (1 - 1/2) * truncSlack (1/2) 16 (2 * 15 * (1/1000000)) ∧
+    (16 : Rat) * (((2 : Nat) : Rat) * (1/1000000)) ≤ (1 - 1/2) * truncSlack (1/2) 16 (2 * 15 * (1/1000000)) * (1 - ((2 : Nat) : Rat) * (1/1000000)) := by
+  unfold truncSlack; norm_num
+
 end AITB.POMDP3
